@@ -2,11 +2,12 @@
 (***************************************************************************************************)
 (* Pipeline V on the repository's OWN test suite (and on anything else that runs with the hooks):    *)
 (* the library is built with -DOP2UTILITY_VERIF, `make check` runs with OP2UTILITY_VERIF_TRACE set,    *)
-(* and every MemoryReader / FileReader / SliceReader operation the 141 tests perform is logged with     *)
+(* and every reader (MemoryReader / FileReader / SliceReader) and writer (MemoryWriter / DynamicMemoryWriter / *)
+(* FileWriter) operation the 141 tests perform is logged with                                          *)
 (* the position and length before and after it.  Each event must be a step of the cursor machine of      *)
 (* StreamReader.tla / ReaderBounds (one stream, data forgotten): the tests' own assertions say little    *)
 (* about positions after a call, the specification says everything.                                      *)
-(*   {"e":"Op","kind":"mem"|"file"|"slice","op":..,"ok":b,"a":n,"aBig":b,"b":n,"bBig":b,                *)
+(*   {"e":"Op","kind":"mem"|"file"|"slice"|"fixed"|"grow"|"filew","op":..,"ok":b,"a":n,"aBig":b,"b":n,"bBig":b,                *)
 (*    "p0":n,"p0Big":b,"len0":n,"len0Big":b,"p1":n,"p1Big":b,"len1":n,"len1Big":b}                       *)
 (* Values of 2^31 and more are logged clamped with their Big flag set.                                   *)
 (***************************************************************************************************)
@@ -41,9 +42,37 @@ File(e) ==
     [] e.op = "SliceAt" -> (e.ok <=> (~e.aBig /\ ~e.bBig /\ e.a + e.b <= e.len0)) /\ Unchanged(e)
     [] e.op = "SliceHere" -> (e.ok <=> (~e.aBig /\ e.p0 + e.a <= e.len0)) /\ (IF e.ok THEN e.p1 = e.p0 + e.a ELSE Unchanged(e))
     [] OTHER -> FALSE
+\* ---- writers: the three machines of StreamWriter.tla, positions and lengths only ------------------------------------------------------
+SameLen(e) == e.len1 = e.len0 /\ e.len1Big = e.len0Big
+\* a writer over a caller's buffer: the length is the buffer's, a step that would leave it changes nothing
+FixedW(e) ==
+  LET rem == e.len0 - e.p0 IN
+  /\ SameLen(e) /\ e.p0 <= e.len0 /\ e.p1 <= e.len1
+  /\ CASE e.op = "Write" -> (e.ok <=> (~e.aBig /\ e.a <= rem)) /\ (IF e.ok THEN e.p1 = e.p0 + e.a ELSE Unchanged(e))
+       [] e.op = "Seek" -> (e.ok <=> (~e.aBig /\ e.a <= e.len0)) /\ (IF e.ok THEN e.p1 = e.a ELSE Unchanged(e))
+       [] e.op = "SeekForward" -> (e.ok <=> (~e.aBig /\ e.a <= rem)) /\ (IF e.ok THEN e.p1 = e.p0 + e.a ELSE Unchanged(e))
+       [] e.op = "SeekBackward" -> (e.ok <=> (~e.aBig /\ e.a <= e.p0)) /\ (IF e.ok THEN e.p1 = e.p0 - e.a ELSE Unchanged(e))
+       [] OTHER -> FALSE
+\* a growing writer: the position IS the length; append, zero fill on forward seek, truncation on backward seek
+GrowW(e) ==
+  /\ e.p0 = e.len0 /\ e.p1 = e.len1
+  /\ CASE e.op = "Write" -> ~e.aBig => (e.ok /\ e.len1 = e.len0 + e.a)
+       [] e.op = "SeekForward" -> IF e.ok THEN (~e.aBig => e.len1 = e.len0 + e.a) ELSE SameLen(e)
+       [] e.op = "SeekBackward" -> (e.ok <=> (~e.aBig /\ e.a <= e.len0)) /\ (IF e.ok THEN e.len1 = e.len0 - e.a ELSE SameLen(e))
+       [] e.op = "Seek" -> IF e.ok THEN (~e.aBig => e.len1 = e.a) ELSE SameLen(e)
+       [] OTHER -> FALSE
+\* a file writer: position independent of the length, a write lands at the position and extends the file if it ends beyond it
+FileW(e) ==
+  CASE e.op = "Write" -> ~e.aBig => (e.ok /\ e.p1 = e.p0 + e.a /\ e.len1 = (IF e.a > 0 /\ e.p0 + e.a > e.len0 THEN e.p0 + e.a ELSE e.len0))
+    [] e.op = "Seek" -> SameLen(e) /\ ((e.ok /\ ~e.aBig) => e.p1 = e.a)
+    [] e.op = "SeekForward" -> SameLen(e) /\ (IF e.ok THEN (~e.aBig => e.p1 = e.p0 + e.a) ELSE Unchanged(e))
+    [] e.op = "SeekBackward" -> SameLen(e) /\ (e.ok <=> (~e.aBig /\ e.a <= e.p0)) /\ (IF e.ok THEN e.p1 = e.p0 - e.a ELSE Unchanged(e))
+    [] OTHER -> FALSE
 Allowed(e) == IF e.e = "Reset" THEN TRUE
-              ELSE /\ e.len1 = e.len0 /\ e.len1Big = e.len0Big                      \* no operation changes the length
-                   /\ (Small(e) => IF e.kind = "file" THEN File(e) ELSE Bounded(e))
+              ELSE Small(e) =>
+                   CASE e.kind = "fixed" -> FixedW(e) [] e.kind = "grow" -> GrowW(e) [] e.kind = "filew" -> FileW(e)
+                     [] e.kind = "file" -> SameLen(e) /\ File(e)                        \* no reader operation changes the length
+                     [] OTHER -> SameLen(e) /\ Bounded(e)
 Next == l <= Len(Log) /\ Allowed(Ev) /\ l' = l + 1
 Spec == Init /\ [][Next]_l
 Accepted == TLCGet("stats").diameter - 1 = Len(Log)
